@@ -282,6 +282,48 @@ class Ctx:
         }
 
 
+def corpus_files(prop):
+    d = os.path.join(env.VERIF_DIR, "corpus", prop)
+    if not os.path.isdir(d):
+        return []
+    return [os.path.join(d, f) for f in sorted(os.listdir(d)) if f.endswith(".json")]
+
+
+def run_corpus(ctx, mod):
+    """Regression tier: the shrunk failing cases of every repaired finding and of every seeded change
+    that a check caught are kept under corpus/<prop>/ and re-run first, without hypothesis.  They ran
+    into a defect once; on a tree where the property holds every one of them passes."""
+    if os.environ.get("VERIF_NO_CORPUS"):
+        return
+    paths = corpus_files(ctx.prop)
+    n = 0
+    for i, path in enumerate(paths):
+        if i % ctx.nshards != ctx.shard:
+            continue
+        rec = json.load(open(path))
+        case = rec["case"] if "case" in rec else rec
+        n += 1
+        ctx.mark_current(case)
+        try:
+            try:
+                mod.replay(case, ctx)
+            except Violation:
+                raise
+            except Exception as e:
+                v = library_exception(e)
+                if v is None:
+                    raise HarnessError(f"corpus case {path}: {traceback.format_exc()}")
+                raise v
+        except Violation as v:
+            kid = ctx.known.match(ctx.open_known, ctx.prop, case, v)
+            if kid is not None:
+                ctx.known_hits[kid] += 1
+                continue
+            ctx.failures.append({"kind": v.kind, "detail": f"[corpus {os.path.basename(path)}] " + v.detail, "case": jsonable(case)})
+    ctx.extra["corpus_cases_replayed"] = n
+    ctx.labels["corpus-replayed"] += n
+
+
 def prop_module(prop):
     return importlib.import_module(f"vp.props.{prop.lower()}")
 
@@ -299,6 +341,7 @@ def shard_main(argv):
     err = None
     try:
         with env.quiet():
+            run_corpus(ctx, mod)
             mod.shard_main(ctx)
     except HarnessError as e:
         status, err = "harness_error", str(e)
@@ -325,7 +368,7 @@ def bucket_name(f):
 
 
 def write_replay(prop, f):
-    d = os.path.join(env.VERIF_DIR, "replays", prop)
+    d = os.path.join(os.environ.get("VERIF_REPLAY_DIR") or os.path.join(env.VERIF_DIR, "replays"), prop)
     os.makedirs(d, exist_ok=True)
     path = os.path.join(d, bucket_name(f) + ".json")
     with open(path, "w") as fh:
@@ -440,8 +483,10 @@ def run_property(prop, tier, seed):
         }
         if harness_errors:
             ev["coverage"]["harness_errors"] = harness_errors[:5]
-        os.makedirs(os.path.join(env.VERIF_DIR, "evidence"), exist_ok=True)
-        with open(os.path.join(env.VERIF_DIR, "evidence", f"{prop}.json"), "w") as fh:
+        # mutant / sensitivity runs redirect their evidence so that the committed files stay those of /repo
+        evdir = os.environ.get("VERIF_EVIDENCE_DIR") or os.path.join(env.VERIF_DIR, "evidence")
+        os.makedirs(evdir, exist_ok=True)
+        with open(os.path.join(evdir, f"{prop}.json"), "w") as fh:
             json.dump(jsonable(ev), fh, indent=1)
         for l in lines:
             print(l)
